@@ -972,6 +972,8 @@ class Unit:
                 base_poly = True
             if bdecl is None and bt[1] in ('std::pmr::memory_resource', 'std::basic_streambuf<char>'):   # polymorphic std bases (the layout self-check confirms)
                 base_poly = True
+            if bdecl is not None and bdecl.get('definitionData', {}).get('isEmpty'):
+                continue    # empty base optimisation: an empty base occupies no storage (the layout self-check confirms)
             out.append(('base', '__base_' + sanitize(bt[1].split('::')[-1]), bt))
         if dd.get('isPolymorphic') and not base_poly:
             out.insert(0, ('vptr', '__vptr', ('ptr', ('b', 'void'))))
